@@ -237,6 +237,24 @@ pub fn run_state_case<T: Sc>(out: Option<&mut Out>, c: &StateCase<T>, fault: Opt
                 }
             }
         }
+        // one case in three: after the first update the problem is CONVERTED (sequential <-> parallel
+        // form) and the rest of the history runs on the converted problem: a conversion hands over
+        // everything - data, weights, threshold, cache
+        if i == 0 && fault.is_none() && (c.recipe.n() + c.history.len()) % 3 == 1 {
+            let par = c.flavour.is_par();
+            let old = prob;
+            match guarded(move || if par { old.to_seq() } else { old.to_par() }) {
+                Ok(p) => {
+                    prob = p;
+                    emit_outputs(out, "again", prob.as_ref());
+                }
+                Err(m) => {
+                    out.line(&format!(" impl panic conversion:{}", m));
+                    out.end();
+                    return marks;
+                }
+            }
+        }
         // a freshly built problem at the parameters the problem reports (history-free twin)
         if i % 2 == 1 || i + 1 == c.history.len() || fault.is_some() || c.origin != "random" {
             let probe2 = Probe::new();
